@@ -524,15 +524,14 @@ pub fn plan_archive_merge(
 ///
 /// Validates spans (no overlaps), compacts in-place by moving
 /// data forward to fill gaps, then truncates the file.
+///
+/// `spans` lists the live data; everything else is dropped. An empty list
+/// therefore leaves an empty file, as a single zero-length span does.
 pub fn extract_compact_segment(
     file: &mut File,
     spans: &mut [DataSpan],
     mover: &mut CompactionFileMover,
 ) -> Result<u64> {
-    if spans.is_empty() {
-        return Ok(0);
-    }
-
     // Validate no overlaps
     validate_spans(spans)?;
 
